@@ -143,6 +143,26 @@ Outcome(c) ==
   IF ~ModuleExists(c.kind, pc) THEN "Reject:module"
   ELSE IF Keys(Collect(c)) \cap MissingKeys(c.kind, pc) # {} THEN "Reject:order"
   ELSE "OK"
+\* target-mass corrections exist for F2, FL, F3, g1 only; TMC of FL (and, as implemented, of g1) also needs F2
+TMCKinds == {"F2", "FL", "F3", "g1"}
+OutcomeTMC(c, tmc) ==
+  IF tmc = 0 THEN Outcome(c)
+  ELSE IF c.kind \notin TMCKinds THEN "Reject:tmc"
+  ELSE IF Outcome(c) # "OK" THEN Outcome(c)
+  ELSE IF c.kind = "FL" THEN Outcome(With(c, "kind", "F2")) ELSE "OK"
+\* cross sections: the structure functions each kind combines (exs.py); g5 uses (g4, gL)
+XSKinds == {"XSHERANC", "XSHERANCAVG", "XSHERACC", "XSCHORUSCC", "XSNUTEVCC", "XSNUTEVNU", "FW", "F1", "g5", "XSFPFCC"}
+XSNeeds(xs) == CASE xs = "g5" -> <<"g4", "gL">>
+                 [] xs \in {"F1", "XSHERANCAVG", "FW"} -> <<"F2", "FL">>
+                 [] OTHER -> <<"F2", "FL", "F3">>
+RECURSIVE FirstBad(_)
+FirstBad(seq) == IF seq = <<>> THEN "OK" ELSE IF Head(seq) # "OK" THEN Head(seq) ELSE FirstBad(Tail(seq))
+OutcomeXS(c, xs, tmc) == FirstBad([i \in 1..Len(XSNeeds(xs)) |-> OutcomeTMC(With(c, "kind", XSNeeds(xs)[i]), tmc)])
+\* kinematic domain (ESF.__init__): 0 < x <= 1, Q2 > 0, x >= smallest grid node; classes of requests
+XClasses == {"in", "zero", "negative", "above1", "belowgrid", "one"}
+Q2Classes == {"pos", "zero", "negative"}
+KinOutcome(xc, qc) == IF xc \in {"in", "one"} /\ qc = "pos" THEN "OK" ELSE "Reject:kinematics"
+
 \* every key the assembly names is either defined or leads to an explicit rejection; every
 \* weight is a rational with positive denominator (no division by zero in the assembly)
 C16_OutcomeTotal(c) ==
